@@ -137,7 +137,7 @@ class BundleInstance:
         """Bundle-instance copying.
         Keeps the "public" fields, while dropping per-instance state such as
         the references handed out and the set of connected ports."""
-        return BundleInstance(
+        cp = BundleInstance(
             name=self.name,
             of=self.of,
             port=self.port,
@@ -147,6 +147,8 @@ class BundleInstance:
             dest=self.dest,
             desc=self.desc,
         )
+        cp.props = copy(self.props)
+        return cp
 
     def __rmul__(self, num: int) -> List["Self"]:
         """# Right multiplication. Creates `num` copies of ourselves."""
